@@ -176,14 +176,22 @@ def run_case(ctx, name, params):
                 poison.add(pz_.id)
                 stale_address = id(pz_)
                 del pz_
+                aj = hooks.ActiveJobs()
                 try:
-                    a1.evaluate(warm)
-                except BaseException:
-                    pass
-                t_end = _t.time() + 3.0
-                while _t.time() < t_end and ((S is not None and S.parked) or any(c.result is None and c.exc is None for c in list(p1.calls))):
-                    _t.sleep(0.002)
-                _t.sleep(0.01)
+                    try:
+                        a1.evaluate(warm)
+                    except BaseException:
+                        pass
+                    # the other workers of the aborted batch are still running (parked at a gate, inside the objective or in the
+                    # store): nothing may be judged, and no file may be removed, before every one of them has finished
+                    drained = aj.wait_idle(90.0)
+                finally:
+                    aj.restore()
+                if not drained:
+                    ctx.count("cases_abandoned_workers_of_aborted_batch_still_running")
+                    if S is not None:
+                        S.shutdown()
+                    return
                 del p1.calls[:]
                 del warm
                 gc.collect()
@@ -292,6 +300,8 @@ def run_case(ctx, name, params):
         setup = insitu.random_setup(r, algo=params.get("algo", "nsga2"), max_n=3, max_m=2, max_N=8, max_G=4, families=["unit", "mixed"])
         workers = r.randint(2, 4)
         ps, as_, es = insitu.run_one(setup)
+        import random as _random
+        rr_s = _random.random.__self__
         S = sched.Scheduler(params["seed"], params["policy"], expected=min(workers, setup["N"]))
 
         def eg(c):
@@ -305,6 +315,11 @@ def run_case(ctx, name, params):
             pp, ap, ep = insitu.run_one(setup, procs=workers, entry_gate=eg, exit_gate=xg)
         finally:
             S.shutdown()
+        rr_p = _random.random.__self__
+        diag = {"serial_draws": getattr(rr_s, "draws", None), "parallel_draws": getattr(rr_p, "draws", None),
+                "serial_rng_threads": len(getattr(rr_s, "tids", [])), "parallel_rng_threads": len(getattr(rr_p, "tids", [])),
+                "main_thread": threading.get_ident() in getattr(rr_p, "tids", []), "live_threads": threading.active_count(),
+                "foreign_draw_stacks": list(vrng.FOREIGN_DRAWS[:1])}
         ctx.count("nsga2_run_pairs")
         wit = lambda extra=None: {"setup": {k: setup[k] for k in ("n", "m", "N", "G", "seed")}, "workers": workers, "policy": params["policy"], "extra": extra}
         if es is not None or ep is not None:
@@ -315,12 +330,21 @@ def run_case(ctx, name, params):
         if S.max_overlap >= 2:
             ctx.count("schedules_with_overlap")
             ctx.nontrivial(S.signature())
+        if pp.failed or ps.failed:
+            ctx.violation("nsga2/failed_designs_logged", "a run whose objective never fails logged %d failed designs (serial %d)"
+                          % (len(pp.failed), len(ps.failed)), wit({"diag": diag}))
+            return
+        if len(getattr(rr_p, "tids", [])) > 1 or len(getattr(rr_s, "tids", [])) > 1:
+            # some other thread drew from the process-wide random source during one of the two runs (only the failure path of
+            # Job.evaluate does that, e.g. a straggler of an earlier case): the two runs are not comparable draw by draw
+            ctx.count("run_pairs_not_comparable_foreign_rng_draws")
+            return
         a = [(i.population_id, list(i.vector), list(i.costs), norm(i.costs_signed)) for i in ps.individuals]
         b = [(i.population_id, list(i.vector), list(i.costs), norm(i.costs_signed)) for i in pp.individuals]
         if a != b:
             k = next((j for j in range(min(len(a), len(b))) if a[j] != b[j]), None)
             ctx.violation("nsga2/parallel_run_differs", "a %s run with %d workers records different designs/costs than the serial "
-                          "run with the same seed" % (setup["algo"], workers), wit({"first_difference": k, "serial": a[k] if k is not None else len(a),
+                          "run with the same seed" % (setup["algo"], workers), wit({"diag": diag, "first_difference": k, "serial": a[k] if k is not None else len(a),
                                                                     "parallel": b[k] if k is not None else len(b)}))
             return
         if len(pp.ok_calls()) != len(ps.ok_calls()):
